@@ -296,9 +296,61 @@ func vfWorkers() int {
 	return n
 }
 
+// Per-case real-time watchdog: a livelock that makes no virtual-time progress would otherwise hang
+// the whole run. When a case exceeds the limit the goroutine dump and the case are written to
+// $VERIF_OUT/hang.json and the process exits with status 4; the driver turns that into a verdict
+// (crash-capable checks re-run the case alone) or an inconclusive result.
+var vfInflight sync.Map // key int (case index) -> vfInflightCase
+
+type vfInflightCase struct {
+	Start time.Time
+	Name  string
+}
+
+var vfWatchdogOnce sync.Once
+
+func vfCaseLimit() time.Duration {
+	if s := os.Getenv("VERIF_CASE_LIMIT_S"); s != "" {
+		if v, err := strconv.Atoi(s); err == nil && v > 0 {
+			return time.Duration(v) * time.Second
+		}
+	}
+
+	return 120 * time.Second
+}
+
+func vfStartWatchdog() {
+	vfWatchdogOnce.Do(func() {
+		go func() {
+			for {
+				time.Sleep(2 * time.Second)
+				vfInflight.Range(func(k, v any) bool {
+					c, _ := v.(vfInflightCase)
+					if time.Since(c.Start) > vfCaseLimit() {
+						buf := make([]byte, 8<<20)
+						buf = buf[:runtime.Stack(buf, true)]
+						d, _ := json.Marshal(map[string]any{"case": c.Name, "index": k, "running_s": time.Since(c.Start).Seconds()})
+						_ = os.WriteFile(filepath.Join(vfEnv().Out, "hang.json"), d, 0o644)
+						_ = os.WriteFile(filepath.Join(vfEnv().Out, "hang.stacks"), buf, 0o644)
+						fmt.Fprintf(os.Stderr, "VF watchdog: case %s has been running for %v of wall time; aborting\n", c.Name, time.Since(c.Start))
+						os.Exit(4)
+					}
+
+					return true
+				})
+			}
+		}()
+	})
+}
+
+// vfCaseName lets a check give its cases names for the watchdog (default: the index).
+var vfCaseName func(i int) string
+
 // vfBubbles runs fn(i) for i in [0,n) with up to vfWorkers() bubbles in flight.
 func vfBubbles(t *testing.T, n int, fn func(t *testing.T, i int)) {
 	t.Helper()
+	vfStartWatchdog()
+	namer := vfCaseName
 	var next int64 = -1
 	var wg sync.WaitGroup
 	w := vfWorkers()
@@ -316,9 +368,16 @@ func vfBubbles(t *testing.T, n int, fn func(t *testing.T, i int)) {
 				}
 				// A sub-test per bubble: a race report or failure attributed to one bubble must
 				// not stop the remaining cases from running.
+				name := strconv.Itoa(i)
+				if namer != nil {
+					name = namer(i)
+				}
+				key := fmt.Sprintf("%p/%d", &next, i)
+				vfInflight.Store(key, vfInflightCase{Start: time.Now(), Name: name})
 				t.Run("b", func(t *testing.T) {
 					synctest.Test(t, func(t *testing.T) { fn(t, i) })
 				})
+				vfInflight.Delete(key)
 			}
 		}()
 	}
